@@ -2,6 +2,7 @@ package c08
 
 import (
 	"encoding"
+	"github.com/tuneinsight/lattigo/v6/circuits/ckks/bootstrapping"
 	"io"
 	"math/big"
 	"reflect"
@@ -265,6 +266,50 @@ var entries = []entry{
 		}
 		return rlwe.NewMemEvaluationKeySet(rlk(2), mk(7, 2), mk(9, 0), mk(31, 1))
 	}},
+	{Name: "bootstrapping.EvaluationKeys", Variants: 6, Make: func(z *zoo, r *eng.Rand, v int) ser {
+		// the key bundle of the bootstrapping circuit: six optional switching keys (each with its own content and
+		// shape, so that a mixed-up field shows) and the rlk/Galois key set
+		evk := func(vv int) *rlwe.EvaluationKey {
+			p, e := z.evp(vv)
+			k := rz(r, rlwe.NewEvaluationKey(p, e))
+			if e.Compressed {
+				k.Seed = seedOf(r)
+			}
+			return k
+		}
+		gk := func(g uint64, vv int) *rlwe.GaloisKey {
+			p, e := z.evp(vv)
+			k := rz(r, rlwe.NewGaloisKey(p, e))
+			k.GaloisElement, k.NthRoot = g, 32
+			if e.Compressed {
+				k.Seed = seedOf(r)
+			}
+			return k
+		}
+		rlk := func(vv int) *rlwe.RelinearizationKey {
+			p, e := z.evp(vv)
+			k := rz(r, rlwe.NewRelinearizationKey(p, e))
+			if e.Compressed {
+				k.Seed = seedOf(r)
+			}
+			return k
+		}
+		b := &bootstrapping.EvaluationKeys{MemEvaluationKeySet: rlwe.NewMemEvaluationKeySet(rlk(0), gk(5, 0), gk(25, 1))}
+		switch v {
+		case 1: // residual ring smaller than the bootstrapping ring
+			b.EvkN1ToN2, b.EvkN2ToN1 = evk(0), evk(1)
+		case 2: // conjugate-invariant residual ring
+			b.EvkRealToCmplx, b.EvkCmplxToReal = evk(0), evk(1)
+		case 3: // sparse-secret encapsulation
+			b.EvkDenseToSparse, b.EvkSparseToDense = evk(1), evk(0)
+		case 4:
+			b.EvkN1ToN2, b.EvkN2ToN1, b.EvkRealToCmplx, b.EvkCmplxToReal, b.EvkDenseToSparse, b.EvkSparseToDense = evk(0), evk(1), evk(2), evk(0), evk(4), evk(1)
+		case 5:
+			b.EvkCmplxToReal, b.EvkSparseToDense = evk(2), evk(0)
+			b.MemEvaluationKeySet = rlwe.NewMemEvaluationKeySet(nil, gk(3, 2))
+		}
+		return b
+	}},
 	{Name: "rgsw.Ciphertext", Variants: 3, Make: func(z *zoo, r *eng.Rand, v int) ser {
 		switch v {
 		case 0:
@@ -283,6 +328,29 @@ var entries = []entry{
 			return "scale-with-3-digit-decimal-exponent"
 		}
 		return ""
+	}},
+	{Name: "rlwe.PlaintextMetaData", Variants: 6, Make: func(z *zoo, r *eng.Rand, v int) ser {
+		m := &rlwe.MetaData{}
+		metaVariant(m, r, v)
+		return &m.PlaintextMetaData
+	}},
+	{Name: "rlwe.CiphertextMetaData", Variants: 4, Make: func(z *zoo, r *eng.Rand, v int) ser {
+		return &rlwe.CiphertextMetaData{IsNTT: v&1 == 1, IsMontgomery: v&2 == 2}
+	}},
+	{Name: "rlwe.VectorQP", Variants: 4, Make: func(z *zoo, r *eng.Rand, v int) ser {
+		var vq rlwe.VectorQP
+		rqp := z.params.RingQP()
+		switch v {
+		case 0:
+			vq = rlwe.VectorQP{rqp.NewPoly(), rqp.NewPoly()}
+		case 1:
+			vq = rlwe.VectorQP{rqp.AtLevel(1, 0).NewPoly(), rqp.AtLevel(1, 0).NewPoly(), rqp.AtLevel(1, 0).NewPoly()}
+		case 2:
+			vq = rlwe.VectorQP{z.noP.RingQP().NewPoly()}
+		default:
+			vq = rlwe.VectorQP{rqp.AtLevel(0, -1).NewPoly(), rqp.AtLevel(0, -1).NewPoly()}
+		}
+		return rz(r, &vq)
 	}},
 	{Name: "rlwe.Parameters", Variants: 3, Make: func(z *zoo, r *eng.Rand, v int) ser {
 		switch v {
